@@ -119,10 +119,18 @@ def _unique_outputs(scope: Scope) -> set[str]:
 
 
 def _has_single_output_row(scope: Scope) -> bool:
-    return isinstance(scope.expression, exp.Select) and (
-        all(isinstance(e.unalias(), exp.AggFunc) for e in scope.expression.selects)
-        or _is_limit_1(scope)
-        or not scope.expression.args.get("from_")
+    expression = scope.expression
+    if not isinstance(expression, exp.Select):
+        return False
+    if _is_limit_1(scope):
+        return True
+    # aggregates without GROUP BY / HAVING and FROM-less selects without WHERE yield exactly one row
+    if expression.args.get("having") or expression.args.get("where") and not expression.args.get("from_"):
+        return False
+    if not expression.args.get("from_"):
+        return True
+    return not expression.args.get("group") and all(
+        isinstance(e.unalias(), exp.AggFunc) for e in expression.selects
     )
 
 
